@@ -254,7 +254,9 @@ def check_case(case) -> Obs:
             # explicit save gives the same bytes
             other = os.path.join(tmp, "explicit.gwl")
             wl.save(other)
-            if os.path.exists(path) and open(other, "rb").read() != open(path, "rb").read():
+            if not os.path.exists(other):
+                obs.bad("C17/explicit-save-missing", f"save({os.path.basename(other)!r}) on a worklist created with the path {case['name']!r} did not write that file")
+            elif os.path.exists(path) and open(other, "rb").read() != open(path, "rb").read():
                 obs.bad("C17/autosave-differs", "auto-save and explicit save wrote different bytes")
             if str(wl) != "\n".join(list(wl)):
                 obs.bad("C17/str", "str(worklist) != newline-joined records")
